@@ -6,7 +6,7 @@ use crate::rules::util::*;
 use serde_json::{json, Value};
 use std::collections::BTreeMap;
 
-fn inline_table(m: &Model, names: &[&str]) -> BTreeMap<String, (Vec<String>, syn::Block)> {
+pub fn inline_table(m: &Model, names: &[&str]) -> BTreeMap<String, (Vec<String>, syn::Block)> {
     let mut t = BTreeMap::new();
     for n in names {
         let c: Vec<&FnInfo> = m.fns.iter().filter(|f| f.name == *n).collect();
